@@ -11,7 +11,9 @@
 // be semantically equal to its rebuilt recipe, pass OK(), and the operation's return value must
 // equal the one obtained on rebuilt, non-aliased operands.
 #include "engine/classes.hh"
-#include "engine/classes_c13x.hh"
+#if VF_GROUP >= 7
+#include "engine/classes_c13x.hh"      // needs -fno-access-control (a few internal entry points)
+#endif
 using namespace vf;
 
 static Args ARGS;
